@@ -245,7 +245,8 @@ def popts_term(h):
     ind = ("ISpaces " if h[0][0] == "S" else "ITabs ") + str(int(h[0][1:]))
     a = [int(x) for x in h[1:6]]
     o = [int(x) for x in h[7:14]]
-    if max(a + o) > 100000:
+    if max(a + o) > 2000:
+        # a run of 65,536 spaces is built through a unary number inside Coq (stack overflow in coqc beyond a few thousand)
         raise ValueError("a spacing field beyond what vm_compute can lay out as a list")
     return ("{| p_indent := %s; array_begin := %d; array_end := %d; array_empty := %d; array_before_comma := %d; "
             "array_after_comma := %d; array_limit := %s; object_begin := %d; object_end := %d; object_empty := %d; "
@@ -859,6 +860,7 @@ def _buckets(d):
 
 
 def _c06_model_line(ast, t):
+    _EXOTIC_ON[0] = t[1] == "11"       # the key universe of THIS case (the flag is also set when its term is built)
     m, sp = ast[1]
     ops = t[2:]
     rs, es, qs = _some(sp)[1]
